@@ -60,8 +60,13 @@ def plan(tier, seed):
 class Fixture:
     def __init__(self, rng):
         import schemes
-        L = schemes.load_sse_module("CJJ14.PiBas")
+        # the service's scheme varies from shard to shard (configurations with repeated string values, other
+        # token / index formats); identifiers are 8 bytes everywhere
+        self.scheme = rng.choice(["CJJ14.PiBas", "CJJ14.PiBas", "CT14.Pi", "ANSS16.Scheme3", "CJJ14.PiPack"])
+        L = schemes.load_sse_module(self.scheme)
         base = dict(L.SSEConfig.get_default_config())
+        if "param_identifier_size" in base:
+            base["param_identifier_size"] = 8
         self.c1 = dict(base, salt="aa" * 16)
         self.c2 = dict(base, salt="bb" * 16)
         sch = L.SSEScheme(base)
@@ -178,7 +183,13 @@ class Runner:
                     await conn.send("token", fx.token, sid=f3, token_digest=b"x")
                     acc.count("foreign_sid_messages", 3)
                 elif sym == "un":
-                    await conn.send("delete", b"")
+                    # a type the server does not define: made-up ones and names a reader of the README might try, with
+                    # payloads that would do damage if some handler accepted them
+                    ut = rng.choice(["delete", "upload_config", "upload_db", "search", "config_upload", "edb", "result",
+                                     "control", "upload-edb", "Config", "CONFIG", "token ", ""])
+                    payload = rng.choice([b"", pickle.dumps(fx.c2), fx.edb["e2"], fx.token])
+                    await conn.send(ut, payload, token_digest=b"digest")
+                    acc.add("unknown_types", ut)
                 expected = model.step(sym)
                 if expected is None:
                     trace.append([sym, "no-reply-expected"])
@@ -432,6 +443,7 @@ async def amain(spec, acc, ctx, virtual=True):
     wh.setup_env(virtual_sleep=virtual)
     server = await wh.Server().start()
     fx = Fixture(ctx.rng)
+    acc.add("fixture_schemes", fx.scheme)
     r = Runner(acc, ctx, server, fx)
     kind = spec["kind"]
     if kind == "exh":
@@ -543,6 +555,8 @@ def finish(m, tier, seed):
         "model_state_x_message_pairs_seen": len(pairs & need),
         "disk_checks": c.get("disk_checks", 0),
         "sid_shapes": sorted(m["sets"].get("sid_shapes", [])),
+        "service_schemes": sorted(m["sets"].get("fixture_schemes", [])),
+        "unknown_message_types_sent": sorted(m["sets"].get("unknown_types", [])),
         "foreign_sid_messages": c.get("foreign_sid_messages", 0),
         "sequences_with_reconnect_inside_cleanup_delay": c.get("sequences.gated", 0),
         "sequences_with_reconnect_after_cleanup": c.get("sequences.ungated", 0),
